@@ -32,7 +32,10 @@ for (pid, n), r in sorted(res.items()):
     k = n
     if n >= 13:
         # seventh round (ten properties): /tmp/w7m-<id>/out/mutant{1,2} become <id>-13 and <id>-14
+        # (rounds seven and eight cover ten properties each, both numbered 13 and 14)
         src = '/tmp/w7m-%s/out' % pid
+        if not os.path.exists(src):
+            src = '/tmp/w8m-%s/out' % pid
         k = n - 12
     elif n >= 11:
         # sixth round: /tmp/w6m-<id>/out/mutant{1,2} become <id>-11 and <id>-12
